@@ -130,10 +130,10 @@ var (
 		"'2020'", "'2020-01-01'", "'2020-13-01'", "'2020-01-01T10:00:00Z'", "'@2020'", "'T10:00'", "'10:00'", "'24:00'", "'25:00'", "'5 \\'mg\\''", "'5'", "'5 days'", "'1 \\'wk\\''", "'5 mg'", "'(['", "'a.b'",
 		"%fstr", "%fstrn", "%fcode", "%fenum", "%furi", "%fb64"}
 	BoolSrcs = []string{"true", "false", "%fbool"}
-	DateSrcs = []string{"@2020", "@2020-02", "@2020-02-29", "@2021-02-28", "@2020-12-31", "@0001-01-01", "@9999-12-31", "@2020-01", "%fdate"}
+	DateSrcs = []string{"@2020", "@2020-02", "@2020-02-29", "@2021-02-28", "@2020-12-31", "@0001-01-01", "@9999-12-31", "@2020-01", "%fdate", "(@9999-12-31 + 1 day)", "(@0001-01-01 - 2 years)"}
 	DTSrcs   = []string{"@2020T", "@2020-02T", "@2020-02-29T", "@2020-02-29T10", "@2020-02-29T10:30", "@2020-02-29T10:30:45", "@2020-02-29T10:30:45.123",
 		"@2020-02-29T10:30:45Z", "@2020-02-29T10:30:45+05:30", "@2020-02-29T10:30:45.123-11:00", "@2020-02-29T10Z", "@2020-02-29T10:30+05:30",
-		"@0001-01-01T00:00:00Z", "@9999-12-31T23:59:59.999Z", "@2020-03-01T00:00:00+14:00", "%fdt", "%fdtday", "%finst"}
+		"@0001-01-01T00:00:00Z", "@9999-12-31T23:59:59.999Z", "@2020-03-01T00:00:00+14:00", "%fdt", "%fdtday", "%finst", "(@9999-12-31T23:59:59Z + 2 seconds)", "(@0001-01-01T00:00:00Z - 1 day)", "%fdtnp", "%fdnp"}
 	TimeSrcs = []string{"@T10", "@T10:30", "@T10:30:45", "@T10:30:45.123", "@T10:30:45.5", "@T00:00", "@T23:59:59.999", "@T23:30", "@T08", "%ftime"}
 	QtySrcs  = []string{"0 'mg'", "1 'mg'", "1.5 'kg'", "5 'mg'", "1 year", "2 years", "1 month", "13 months", "1 week", "3 weeks", "1 day", "365 days", "1 hour", "25 hours", "90 minutes", "1 second", "1.5 seconds",
 		"1 millisecond", "1000 milliseconds", "1 'wk'", "1 'a'", "1 'mo'", "1 'd'", "1 'h'", "1 'min'", "1 's'", "1 'ms'", "1 '1'", "5.5 'mg'", "-(1 day)", "-(1 'mg')", "2147483648 days", "99999999999 years", "%fqty"}
